@@ -504,6 +504,102 @@ theorem query_after_setVar_is_fresh (fuel : Nat) (d : Desc) (ops : List Op) (i :
     (step fuel s' (.query i n P)).2 = resolve s'.desc P i n false fuel :=
   query_fresh_step fuel _ (step_preserves fuel _ _ (cache_coherent fuel ops _ (inv_init fuel d))) i n P
 
+/-! ### every platform name: the invalidation pattern puts no condition on the platform part of a label
+
+FlowIR accepts any string as a platform name (`openshift-kubeflux`, `lsf.cluster`, `docker/local`, names made of
+regular-expression metacharacters, blanks, colons, …).  `Label.platform`, the `P` of `Op.query` and every `P` below
+range over ALL strings `S = List Char`: nothing here is restricted to "word" names. -/
+
+private theorem isPrefixOf_iff (p t : S) : p.isPrefixOf t = true ↔ ∃ b, t = p ++ b := by
+  rw [List.isPrefixOf_iff_prefix]
+  constructor
+  · rintro ⟨b, h⟩; exact ⟨b, h.symm⟩
+  · rintro ⟨b, h⟩; exact ⟨b, h.symm⟩
+
+private theorem isInfix_iff (p : S) : ∀ t : S, isInfix p t = true ↔ ∃ a b, t = a ++ p ++ b := by
+  intro t
+  induction t with
+  | nil =>
+    simp only [isInfix]
+    constructor
+    · intro h
+      have hp : p = [] := by simpa using h
+      exact ⟨[], [], by simp [hp]⟩
+    · rintro ⟨a, b, h⟩
+      have hl := congrArg List.length h
+      simp only [List.length_nil, List.length_append] at hl
+      have hp : p = [] := List.eq_nil_of_length_eq_zero (by omega)
+      simp [hp]
+  | cons c s ih =>
+    simp only [isInfix, Bool.or_eq_true, ih, isPrefixOf_iff]
+    constructor
+    · rintro (⟨b, h⟩ | ⟨a, b, h⟩)
+      · exact ⟨[], b, by simpa using h⟩
+      · exact ⟨c :: a, b, by simp [h]⟩
+    · rintro ⟨a, b, h⟩
+      cases a with
+      | nil => exact Or.inl ⟨b, by simpa using h⟩
+      | cons x a' =>
+        simp only [List.cons_append, List.cons.injEq] at h
+        exact Or.inr ⟨a', b, h.2⟩
+
+/-- **invalidates_iff_label_matches**: what the pattern `component:.*:stage<i>:<name>` (name literal, `match` = anchored
+at the start only) accepts, spelled out on the text of the label after `component:`: ANY characters, then
+`:stage<i>:<name>`, then any characters.  The platform part is unconstrained - dashes, dots, blanks, colons,
+metacharacters, non-ASCII are all "any characters". -/
+theorem invalidates_iff_label_matches (i : Nat) (n : S) (l : Label) :
+    invalidates i n l = true ↔ ∃ a b : S, labelTail l = a ++ stageTag i n ++ b := by
+  simp only [invalidates]
+  exact isInfix_iff _ _
+
+/-- the component-level mutators (and the reference getter of a component): each one invalidates the component it
+addresses -/
+def editTarget : Op → Option (Nat × S)
+  | .setVar i n _ _ => some (i, n)
+  | .delVar i n _ => some (i, n)
+  | .setOption i n _ _ => some (i, n)
+  | .removeOption i n _ => some (i, n)
+  | .updateComp i n _ => some (i, n)
+  | .deleteComp i n => some (i, n)
+  | .touchComp i n => some (i, n)
+  | _ => none
+
+/-- **component_update_drops_every_platform**: whichever component-level call is made on an existing component
+(set / delete a variable, set / remove an option, replace, delete, hand out a reference) - successful or raising after
+the invalidation - no cached configuration of that component survives under ANY platform name `P` -/
+theorem component_update_drops_every_platform (fuel : Nat) (s : St) (op : Op) (i : Nat) (n : S) (c : Comp)
+    (ht : editTarget op = some (i, n)) (hc : findComp s.desc.comps i n = some c) (P : S) :
+    cacheGet (step fuel s op).1.cache ⟨P, i, n⟩ = none := by
+  have key : (step fuel s op).1.cache = invalidate i n s.cache := by
+    cases op <;> simp only [editTarget, Option.some.injEq, Prod.mk.injEq, reduceCtorEq] at ht <;>
+      obtain ⟨rfl, rfl⟩ := ht <;> simp only [step, hc] <;> (repeat' split) <;> rfl
+  rw [key]
+  exact cacheGet_invalidate i n P s.cache
+
+/-- in a coherent state nothing is cached for a component that does not exist, under any platform name: so
+`add_component` (which does not invalidate) can never be followed by a hit on an entry of a deleted namesake -/
+theorem absent_component_has_no_cached_entry (fuel : Nat) (s : St) (hinv : Inv fuel s) (i : Nat) (n : S)
+    (h : findComp s.desc.comps i n = none) (P : S) : cacheGet s.cache ⟨P, i, n⟩ = none := by
+  cases hg : cacheGet s.cache ⟨P, i, n⟩ with
+  | none => rfl
+  | some v =>
+    obtain ⟨l, hm, h1, h2, h3⟩ := cacheGet_mem _ _ _ hg
+    have := hinv l v hm
+    simp only at h1 h2 h3
+    rw [h1, h2, h3] at this
+    simp [resolve, h] at this
+
+/-- **component_update_then_query_any_platform**: after ANY history, a component-level call on an existing component
+leaves no entry of it under any platform name, and the query that follows - on any platform `P`, whatever its name -
+answers the from-scratch resolution of the description as it is after the call -/
+theorem component_update_then_query_any_platform (fuel : Nat) (d : Desc) (ops : List Op) (op : Op) (i : Nat) (n : S)
+    (c : Comp) (ht : editTarget op = some (i, n))
+    (hc : findComp (run fuel (init d) ops).1.desc.comps i n = some c) (P : S) :
+    let s' := (step fuel (run fuel (init d) ops).1 op).1
+    cacheGet s'.cache ⟨P, i, n⟩ = none ∧ (step fuel s' (.query i n P)).2 = resolve s'.desc P i n false fuel :=
+  ⟨component_update_drops_every_platform fuel _ op i n c ht hc P,
+   query_fresh_step fuel _ (step_preserves fuel _ _ (cache_coherent fuel ops _ (inv_init fuel d))) i n P⟩
+
 /-! ### components are stored by value: an update of one component never reaches another -/
 
 /-- the component an operation addresses (`none`: the variable setters and the opaque reads) -/
@@ -789,6 +885,40 @@ example : (grun 50 defaultName (init d1)
         (fun a => match a with | .ok v => some v | .error _ => none)
     = [some (.str ['1']), some .null, some (.str ['2']), some .null, some (.str "1.0".toList),
        some (.flt "1.0".toList), none] := by rfl
+
+/-- a description with a platform whose name is not a "word": `openshift-kubeflux` -/
+private def okf : S := "openshift-kubeflux".toList
+
+private def d2 : Desc :=
+  { platforms := [defaultName, okf], blueprint := [],
+    variables := [(defaultName, { global := [(['g'], .str ['1'])], stages := [] }),
+                  (okf, { global := [(['g'], .str "on-okf".toList)], stages := [] })],
+    comps := [⟨0, ['c'], [("stage".toList, .int 0), ("name".toList, .str ['c']),
+                          ("command".toList, .dict [("arguments".toList, .str "%(g)s %(x)s".toList)]),
+                          ("variables".toList, .dict [(['x'], .str ['0'])])]⟩] }
+
+private def argText (a : Except Err Val) : Option S :=
+  match args a with
+  | some (.str t) => some t
+  | _ => none
+
+/-- query on `openshift-kubeflux` (fills the cache), component-level update, query again: the update is visible -/
+example : (run 50 (init d2) [.query 0 ['c'] okf, .setVar 0 ['c'] ['x'] (.str ['1']), .query 0 ['c'] okf,
+                            .query 0 ['c'] okf]).2.map argText
+    = [some "on-okf 0".toList, none, some "on-okf 1".toList, some "on-okf 1".toList] := by decide +kernel
+
+/-- the hypotheses of `component_update_drops_every_platform` are satisfiable with a non-empty cache: the entry of
+`openshift-kubeflux` is there before the call and gone after it -/
+example : (cacheGet (run 50 (init d2) [.query 0 ['c'] okf]).1.cache ⟨okf, 0, ['c']⟩).isSome = true ∧
+    cacheGet (run 50 (init d2) [.query 0 ['c'] okf, .setOption 0 ['c'] "#command.arguments".toList (.str ['z'])]).1.cache
+      ⟨okf, 0, ['c']⟩ = none := by decide +kernel
+
+/-- labels of platforms named `lsf.cluster`, `p q`, `a+b`, `x:y` all match the pattern of their component; the label
+of another component of the same platform does not -/
+example : invalidates 0 ['c'] ⟨"lsf.cluster".toList, 0, ['c']⟩ = true ∧ invalidates 0 ['c'] ⟨"p q".toList, 0, ['c']⟩ = true ∧
+    invalidates 0 ['c'] ⟨"a+b".toList, 0, ['c']⟩ = true ∧ invalidates 0 ['c'] ⟨"x:y".toList, 0, ['c']⟩ = true ∧
+    invalidates 0 ['c'] ⟨"lsf.cluster".toList, 0, ['d']⟩ = false ∧
+    invalidates 1 ['c'] ⟨"lsf.cluster".toList, 10, ['c']⟩ = false := by decide
 
 /-- one body, two names: what a caller that stamps components out of one template dictionary hands in -/
 private def tplBody : Fields :=
